@@ -1,6 +1,6 @@
 (* C15 — equality, hashing and content comparison are coherent. *)
-Require Import Enr.Bytes Enr.Consts Enr.Rlp Enr.SortedMap Enr.Keccak Enr.Record.
-Require Import EnrProofs.Thm_Misc.
+Require Import Enr.Bytes Enr.Consts Enr.Rlp Enr.SortedMap Enr.Keccak Enr.Record Enr.Update Enr.Spec.
+Require Import EnrProofs.Thm_Misc EnrProofs.Thm_More EnrProofs.WellFormedLemmas.
 Open Scope N_scope.
 
 Theorem rec_eqb_iff : forall a b, rec_eqb a b = true <-> seq a = seq b /\ nid a = nid b /\ sig a = sig b.
@@ -24,3 +24,30 @@ Print Assumptions rec_eqb_differs.
 Theorem compare_content_iff_payload : forall a b, compare_content a b = true <-> signed_payload a = signed_payload b.
 Proof. exact Thm_Misc.compare_content_iff_payload. Qed.
 Print Assumptions compare_content_iff_payload.
+
+(* content comparison: true exactly when seq and pairs coincide, regardless of signature *)
+Theorem compare_content_iff : forall (c : crypto) kt a b, Valid c kt a -> Valid c kt b ->
+  (compare_content a b = true <-> seq a = seq b /\ content a = content b).
+Proof. exact Thm_More.compare_content_iff. Qed.
+Print Assumptions compare_content_iff.
+
+(* equal records carry identical pairs and encode identically -- or the two records exhibit a
+   signature that verifies for two different payloads under keys with the same keccak256 hash.
+   ("No such collision exists" is not a theorem of any proof assistant; the reduction is.) *)
+Theorem eq_same_content_or_collision : forall (c : crypto) kt a b, Valid c kt a -> Valid c kt b -> rec_eqb a b = true ->
+  encode a = encode b \/
+  (exists pa pb, enr_to_public c kt (content a) = Ok pa /\ enr_to_public c kt (content b) = Ok pb /\
+                 keccak256 (pk_unc pa) = keccak256 (pk_unc pb) /\
+                 signed_payload a <> signed_payload b /\
+                 verify_v4 c pa (signed_payload a) (sig a) = true /\ verify_v4 c pb (signed_payload b) (sig a) = true).
+Proof. exact Thm_More.eq_same_content_or_collision. Qed.
+Print Assumptions eq_same_content_or_collision.
+
+(* a record equals its decode-after-encode image (and its clone: the same value) *)
+Theorem eq_redecode : forall (c : crypto) kt r r' rest,
+  Valid c kt r -> decode c kt (encode r) = Ok (r', rest) -> rec_eqb r r' = true /\ r' = r.
+Proof.
+  intros c kt r r' rest Hv H. pose proof (WellFormedLemmas.valid_redecodes c kt r [] Hv) as D. rewrite app_nil_r in D.
+  rewrite D in H. inversion H; subst. split; [apply Thm_Misc.rec_eqb_refl | reflexivity].
+Qed.
+Print Assumptions eq_redecode.
